@@ -9,7 +9,7 @@
     *model* computes ([hash_pre]); an entry whose evaluation needs a digest the
     table lacks is a disagreement. *)
 From Coq Require Import String List NArith ZArith Bool.
-From C33 Require Import Lib.Harness Lib.Bytes C16.Proto C16.Spec.
+From C33 Require Import Lib.Harness Lib.Bytes C16.Proto C16.Spec C16.SpecExt.
 From C33 Require Export C16.Model C17.Model.
 From C33 Require Import C17.Spec.
 Import ListNotations.
@@ -171,7 +171,7 @@ Definition mk_drvs (dsl : list (Z * bool * Z)) : list drv :=
 Definition default_env : env := mk_env 0 0 0 0 0 0 0.
 
 (** verdict of one entry *)
-Definition check_entry (ds : list drv) (envs : list env) (pool G0 : list tx) (t0 : tab)
+Definition check_entry (ds : list drv) (aids : list Z) (envs : list env) (pool G0 : list tx) (t0 : tab)
     (issued0 : list tx) (en : entry) : verdict :=
   match en with
   | E ops envi extra chk chktx sgn drv =>
@@ -185,7 +185,9 @@ Definition check_entry (ds : list drv) (envs : list env) (pool G0 : list tx) (t0
                  | None => 255%N
                  | Some t => err_code (tx_check Hh e t)
                  end in
-      let msgn := if forallb_i (fun i t => check_sign ds (fun _ _ _ _ => N.testbit drv (N.of_nat i)) t (e_height e)) O L
+      (* Transactions.CheckSign = Transaction.checkSign of every member: the sender gate
+         (C16.Model.check_sign_tx; aids = address ids with a usable address driver), then the driver *)
+      let msgn := if forallb_i (fun i t => check_sign_tx (adrv_of aids [1%N]) ds (fun _ _ _ _ => N.testbit drv (N.of_nat i)) t (e_height e)) O L
                   then 1%N else 0%N in
       let m := p_ok s && forallb (known t2) L && N.eqb chk mchk &&
                (N.eqb chktx 254 || N.eqb chktx mtx) && N.eqb sgn msgn in
@@ -214,11 +216,13 @@ Definition check_entries (f : entry -> verdict) (l : list entry) : verdict :=
   end.
 
 Inductive case :=
-| CBatch (dsl : list (Z * bool * Z)) (inputs : list tx) (rate : Z)
+| CBatch (dsl : list (Z * bool * Z)) (aids : list Z) (inputs : list tx) (rate : Z)
          (cr : N) (fee0 : Z) (dg : list (list N)) (dinit : list N)
          (sigs : list sigt) (pool : list tx) (pooldg : list (list N))
          (envs : list env) (entries : list entry).
-    (* dsl: crypto driver registry; CreateTxGroup(inputs, rate) returned error class cr
+    (* dsl: crypto driver registry; aids: address ids whose driver derives an address
+       from a public key (members with another address id in Signature.ty are refused
+       by CheckSign since chain33 909acb0); CreateTxGroup(inputs, rate) returned error class cr
        (0 = nil); on success fee0 = fee of the head, dg = digests of the resulting
        members (dg[0] = the header), dinit = digest of the first input before the call;
        sigs = the members' signatures (Transactions.SignN); pool = signed members of
@@ -240,7 +244,7 @@ Fixpoint sign_all (G : list tx) (sigs : list sigt) : list tx :=
 
 Definition check_case (c : case) : verdict :=
   match c with
-  | CBatch dsl inputs rate cr fee0 dg dinit sigs pool pooldg envs entries =>
+  | CBatch dsl aids inputs rate cr fee0 dg dinit sigs pool pooldg envs entries =>
       let ds := mk_drvs dsl in
       if N.eqb cr 0 then
         let G' := created_expected inputs fee0 dg in
@@ -253,7 +257,7 @@ Definition check_case (c : case) : verdict :=
                   end in
         if mc then
           let G0 := sign_all G' sigs in
-          check_entries (check_entry ds envs pool G0 t0 (G0 ++ pool)) entries
+          check_entries (check_entry ds aids envs pool G0 t0 (G0 ++ pool)) entries
         else mk_verdict false true
       else
         let mc := match create_group (fun _ => nrep 32 0) inputs rate with
